@@ -373,6 +373,11 @@ func (c12) execBAM(x *Exec, c *c12Case) *Verdict {
 			werr = "building the header: " + err.Error()
 			return
 		}
+		// the order of the tags within a header line is the library's own
+		// (it carries no meaning): take its text if it says the same thing
+		if lt, err := h.MarshalText(); err == nil && NormHeaderText(string(lt)) == NormHeaderText(c.Hdr.Text()) {
+			hdrBytes = c.Hdr.EncodeBAMHeaderText(string(lt))
+		}
 		started = append(started, hdrBytes...)
 		bw, err := bam.NewWriterLevel(file.W(), h, c.W.Level, c.W.WC)
 		if err != nil {
